@@ -135,10 +135,17 @@ Register(n, s) ==
   /\ Modify(n, PushDown(own[n], s, 0, nm + 1),
             [op |-> "register", n |-> n, m |-> nm + 1, sid |-> s, out |-> "ok"])
 
+(* unregister: drop m, then close the gap it leaves in its signature's chain  *)
+(* (ranks of a signature are always 0, -1, -2 .. without holes)               *)
+DropClose(t, m) ==
+  LET kept == {k \in DOMAIN t : t[k] # m}
+      NewK(k) == <<k[1], 0 - Cardinality({k2 \in kept : k2[1] = k[1] /\ k2[2] > k[2]})>>
+  IN [kk \in {NewK(k) : k \in kept} |-> t[CHOOSE k \in kept : NewK(k) = kk]]
+
 Unregister(n, m) ==
   /\ exists[n] /\ \E k \in DOMAIN own[n] : own[n][k] = m
   /\ nm' = nm
-  /\ Modify(n, [k \in {k \in DOMAIN own[n] : own[n][k] # m} |-> own[n][k]],
+  /\ Modify(n, DropClose(own[n], m),
             [op |-> "unregister", n |-> n, m |-> m, out |-> "ok"])
 
 (* first use (or any use): ensure compiled *)
